@@ -932,14 +932,27 @@ def native_binary_exit(limit_s=8):
 
     def demote():
         os.setgid(65534); os.setuid(65534)
-    t0 = time.time()
-    p = subprocess.Popen([b], preexec_fn=demote, stdout=subprocess.PIPE, stderr=subprocess.PIPE, text=True)
+    # the build directory may sit below a directory the unprivileged user cannot traverse (e.g. /root): run a copy from a scratch
+    # directory that is removed afterwards
+    import tempfile, shutil
+    scratch = tempfile.mkdtemp(prefix='verif-c15-bin-')
     try:
-        p.wait(timeout=limit_s)
-        hung = False
-    except subprocess.TimeoutExpired:
-        hung = True
-        p.kill(); p.wait()
+        os.chmod(scratch, 0o755)
+        b2 = os.path.join(scratch, 'clockbound')
+        shutil.copy2(b, b2); os.chmod(b2, 0o755)
+        t0 = time.time()
+        try:
+            p = subprocess.Popen([b2], preexec_fn=demote, stdout=subprocess.PIPE, stderr=subprocess.PIPE, text=True, cwd=scratch)
+        except (OSError, subprocess.SubprocessError) as e:
+            return {'cmd': b, 'out': 'not runnable here as an unprivileged user: %s' % e, 'hung': False, 'returned_ms': None, 'ok': False}
+        try:
+            p.wait(timeout=limit_s)
+            hung = False
+        except subprocess.TimeoutExpired:
+            hung = True
+            p.kill(); p.wait()
+    finally:
+        shutil.rmtree(scratch, ignore_errors=True)
     ms = int((time.time() - t0) * 1000)
     tail = ((p.stdout.read() or '') + (p.stderr.read() or ''))[-400:]
     died = 'Failed to create SHM writer' in tail or 'panicked' in tail
